@@ -148,7 +148,11 @@ def any_spec(draw):
     opts = {"a": draw(st.booleans()), "c": draw(st.booleans())}
     if draw(st.booleans()):
         opts["p"] = draw(st.lists(st.sampled_from([8443, 4433, 80]), min_size=1, max_size=2))
-    mk = draw(st.sampled_from([None, None, [], ["443:8081"], ["443:8081,", "8443:8088"]]))
+    mk = draw(st.sampled_from([None, None, [], ["443:8081"], ["443:8081,", "8443:8088"], "cport"]))
+    if mk == "cport":
+        # the mapped port is the client port of a connection of the capture: both ends of that exported conversation use one port number
+        tgt = [c["ep"]["cport"] for c in conns if c["kind"] in ("tls", "quic")]
+        mk = ["%d:%d" % (sp, tgt[0]) for sp in (443, 44330, 8443)] if tgt else None
     opts["m"] = mk
     # the remaining switches: RFC 9287 greased fixed bit, log level, log filter
     opts["g"] = draw(st.sampled_from([False, False, True]))
